@@ -49,12 +49,14 @@ Record prof := {
 Definition fn_of (fnh : list N) (tok : Z) : N := nth (Z.to_nat (if Z.ltb tok 0 then 0 else tok)) fnh 0%N.
 Definition tok_of (tok : Z) : Z := if Z.ltb tok 0 then 0%Z else tok.
 
+(* a sample without locations is walked as one frame without line info ("n/a"), see Pprof.normalize *)
+Definition eff_ps_stack (s : psample) : list Z := match ps_stack s with [] => [(-1)%Z] | l => l end.
 Definition samples_of (fnh : list N) (p : prof) : list sample :=
-  map (fun s => {| s_stack := map (fn_of fnh) (ps_stack s); s_values := ps_values s |}) (pf_samples p).
+  map (fun s => {| s_stack := map (fn_of fnh) (eff_ps_stack s); s_values := ps_values s |}) (pf_samples p).
 
 (* funcs[fnId] = name, in walking order (root first within a sample) *)
 Definition model_funcs (fnh : list N) (p : prof) : list (N * Z) :=
-  fold_left (fun m s => fold_left (fun m tok => fn_upsert m (fn_of fnh tok) (tok_of tok)) (rev (ps_stack s)) m)
+  fold_left (fun m s => fold_left (fun m tok => fn_upsert m (fn_of fnh tok) (tok_of tok)) (rev (eff_ps_stack s)) m)
             (pf_samples p) [].
 
 Definition rows_match (obs : list node) (t : tree) : bool :=
@@ -85,8 +87,6 @@ Definition prof_mismatch (fnh : list N) (p : prof) : bool :=
 
 (* the property on the OBSERVED rows.  full: root totals = sum over ALL samples (the statement of C16);
    partial: sum over the samples that have at least one frame *)
-Definition full_weight (k : nat) (ss : list sample) : Z := sumZ (map (fun s => nth k (s_values s) 0%Z) ss).
-
 Definition prof_stored_once (p : prof) : bool :=
   negb (pf_err p) && Z.eqb (pf_nresp p) 1 && Z.eqb (pf_nprof p) 1 && Z.eqb (pf_nother p) 0.
 
